@@ -101,3 +101,10 @@ chk("C12", "exploration", "dual-provider differential monitoring of the mutation
     "7 key types are loaded under one provider and used and freed under the other (4 combinations each).",
     "Excluded middle (valid but non-canonical tokens) is counted, not judged. secp256k1 is outside the common matrix. Two open "
     "known findings (Ed448 last byte on GnuTLS).", "DESIGN.md 3/C12")
+chk("C05", "exploration", "generate->verify round trips over random JSON trees and fresh keys, all provider pairs, Python JSON-equality monitor + reference verifier, under ASan/UBSan",
+    "2.4e4 (quick) / 6e5 (thorough) round trips: fresh keys of every type and size x every admissible alg x all four (signing, "
+    "verifying) provider pairs x random header/claim JSON trees set through whole-object merge or typed setters at random clock "
+    "values. Every token must verify under the checker and under the OpenSSL reference, and the header/claims dumped by the "
+    "checker callback must be JSON-equal (type-strict) to the harness' inputs plus alg/typ/iat. The run counts ECDSA signatures "
+    "with a leading zero byte in r or s and is inconclusive below a minimum.",
+    "Trusted: Python json, OpenSSL reference verifier. secp256k1 with GnuTLS is outside the support matrix.", "DESIGN.md 3/C05")
